@@ -394,6 +394,7 @@ def isPrefixOf (a b : List String) : Bool := b.take a.length == a
 structure JW where
   first : List String := []       -- wlog
   more : List String := []        -- wlogmore
+  opened : Bool := false
   damaged : Bool := false
   dmgSeg : Nat := 0
   dmgOff : Nat := 0
@@ -415,8 +416,9 @@ def judgeW (js : JW) (op out : String) : JW × Option String :=
   | ["wclose"] =>
     (if js.damaged then js else { js with nsegs := (((toks out).getD 1 "").splitOn ",").length }, none)
   | ["wrepair"] => ({ js with repaired := true }, if out.startsWith "ok" ∨ out = "none" then none else some s!"repair-failed {out}")
+  | ["wopen", _] => ({ js with opened := true }, none)
   | [rd] =>
-    if rd = "wread" ∨ rd = "wreadall" then
+    if (rd = "wread" ∨ rd = "wreadall") ∧ js.opened ∧ js.damaged then
       let (ids, status) := idsOf out
       match js.afterDamage with
       | none =>
